@@ -6,6 +6,7 @@ from .mir import UNKNOWN, show
 IT_NEXT = 'core::iter::traits::iterator::Iterator::next'
 IT_NEXT_BACK = 'core::iter::traits::double_ended::DoubleEndedIterator::next_back'
 IT_FIND = 'core::iter::traits::iterator::Iterator::find'
+IT_RFIND = 'core::iter::traits::double_ended::DoubleEndedIterator::rfind'
 IT_MAP = 'core::iter::traits::iterator::Iterator::map'
 IT_ZIP = 'core::iter::traits::iterator::Iterator::zip'
 IT_ENUMERATE = 'core::iter::traits::iterator::Iterator::enumerate'
@@ -51,6 +52,11 @@ class View:
                     t = inner[1]; continue
                 return ('deref', inner)
             if k == 'ref':
+                if t[1][0] == 'deref':
+                    # a reborrow `&mut *r` denotes the same place as r: keep the identity (base local) of the original borrow
+                    inner = self.strip(t[1][1])
+                    if inner[0] == 'ref':
+                        return inner
                 return ('ref', self.strip(t[1]), t[2], t[3])
             return t
 
